@@ -225,6 +225,16 @@ func enter(restoreEnv bool) (leave func()) {
 		os.Stdout, os.Stdin = savedOut, savedIn
 		slip.Untrace(nil)
 		slip.CurrentPackage = &slip.UserPkg
+		// (defun :start ...) / (defvar :zork ...) define things named by pool symbols that are not fresh
+		for _, n := range []string{":start", ":zork", "t"} {
+			func() {
+				defer func() { _ = recover() }()
+				slip.UserPkg.Undefine(n)
+				if n != "t" {
+					slip.UserPkg.Remove(n)
+				}
+			}()
+		}
 		if nUses < len(slip.UserPkg.Uses) {
 			slip.UserPkg.Uses = slip.UserPkg.Uses[:nUses]
 		}
